@@ -59,6 +59,7 @@ both in patterns and in the paths they are matched against.
 
 import copy
 import glob
+import os
 import re
 from collections.abc import Collection, Iterable, Iterator
 from typing import Self
@@ -262,6 +263,10 @@ class NamedGlob:
             path = Path(path)
             if path.is_dir():
                 path = path / ""
+            elif not os.path.lexists(path):
+                # For a pattern that ends in `/**`, iglob yields the base directory itself
+                # (with a trailing separator) without checking that it exists.
+                continue
             paths.append(path)
         self.extend(paths)
 
